@@ -165,3 +165,14 @@ Proof.
   destruct (vcross u r); reflexivity.
 Qed.
 Print Assumptions C01_trail_kernel_closed_form.
+
+(* the error state is that of the LAST set_err_state call; whatever that call leaves out is "raise" again, whatever earlier calls said
+   (docstring: "All will default to 'raise' if not specified") - so an earlier 'ignore' can never silence a later unconverged solve *)
+Theorem C01_err_state_last_call_wins : forall calls c,
+  err_state_after (calls ++ [c]) = set_err_state c /\ err_state_after [] = (IRaise, IRaise) /\
+  (fst c = None -> fst (err_state_after (calls ++ [c])) = IRaise).
+Proof.
+  intros calls c. unfold err_state_after. rewrite fold_left_app. cbn [fold_left]. repeat split.
+  intro H. unfold set_err_state. rewrite H. reflexivity.
+Qed.
+Print Assumptions C01_err_state_last_call_wins.
